@@ -116,7 +116,6 @@ def _cells():
     B("det:type_foo", "utils.det", [SQ, "foo"], argclass="unknown option")
     B("det:type_empty", "utils.det", [SQ, ""], argclass="unknown option")
     B("det:study", "utils.det", [SQ, "Study"], argclass="unsupported option (NotImplementedError)")
-    B("det_moore:nonherm", "utils.det", [SQ, "Moore"], argclass="non-Hermitian by a margin")
     B("adjoint:real", "utils.quaternion_to_complex_adjoint", [REAL], argclass="real dtype")
     B("adjoint:complex", "utils.quaternion_to_complex_adjoint", [CPLX], argclass="complex dtype")
     B("adjoint:axis_y", "utils.quaternion_to_complex_adjoint", [SQ], {"axis": "y"}, argclass="unknown option")
@@ -133,10 +132,29 @@ def _cells():
     B("quaternion_lu:zero_matrix", "decomp.quaternion_lu", [{"gen": "zeros", "m": 3, "n": 3}], argclass="zero pivot")
     B("quaternion_lu:zero_column", "decomp.quaternion_lu",
       [{"gen": "psvd", "m": 3, "n": 3, "sigma": [0.0, 0.0, 0.0], "seed": 1}], {"return_p": True}, argclass="zero pivot")
-    B("eigendecomposition:nonherm", "decomp.quaternion_eigendecomposition", [SQ], argclass="non-Hermitian by a margin")
-    B("eigenvalues:nonherm", "decomp.quaternion_eigenvalues", [SQ], argclass="non-Hermitian by a margin")
-    B("eigenvectors:nonherm", "decomp.quaternion_eigenvectors", [SQ], argclass="non-Hermitian by a margin")
-    B("tridiagonalize:nonherm", "decomp.tridiagonalize", [SQ], argclass="non-Hermitian by a margin")
+    # non-Hermitian by a margin, in every way a Hermitian test can be weakened: generic,
+    # only an imaginary part on the diagonal, only one off-diagonal entry, skew-Hermitian,
+    # symmetric-but-not-conjugated, only the last row/column, only the real part asymmetric
+    def ent(i, j, q):
+        return {"gen": "entry", "m": 4, "n": 4, "i": i, "j": j, "q": q}
+    SKEW = {"gen": "add", "a": SQ, "b": {"gen": "scale", "c": -1.0, "of": {"gen": "T", "of": SQ}}}
+    nonherm = {
+        "generic": SQ,
+        "imag_diag": {"gen": "add", "a": HERM, "b": ent(1, 1, [0, 0.5, 0, 0])},
+        "imag_diag_k": {"gen": "add", "a": HERM, "b": ent(0, 0, [0, 0, 0, 0.5])},
+        "one_offdiag": {"gen": "add", "a": HERM, "b": ent(0, 2, [0.5, 0, 0, 0])},
+        "one_offdiag_lower": {"gen": "add", "a": HERM, "b": ent(3, 1, [0, 0, 0.5, 0])},
+        "last_corner": {"gen": "add", "a": HERM, "b": ent(3, 0, [0.5, 0.5, 0, 0])},
+        "skew": SKEW,
+        "symmetric_not_conj": {"gen": "add", "a": HERM,
+                               "b": {"gen": "add", "a": ent(0, 1, [0, 0.5, 0, 0]), "b": ent(1, 0, [0, 0.5, 0, 0])}},
+    }
+    for nm, M in nonherm.items():
+        B(f"det_moore:nonherm_{nm}", "utils.det", [M, "Moore"], argclass="non-Hermitian by a margin")
+        B(f"eigendecomposition:nonherm_{nm}", "decomp.quaternion_eigendecomposition", [M], argclass="non-Hermitian by a margin")
+        B(f"eigenvalues:nonherm_{nm}", "decomp.quaternion_eigenvalues", [M], argclass="non-Hermitian by a margin")
+        B(f"eigenvectors:nonherm_{nm}", "decomp.quaternion_eigenvectors", [M], argclass="non-Hermitian by a margin")
+        B(f"tridiagonalize:nonherm_{nm}", "decomp.tridiagonalize", [M], argclass="non-Hermitian by a margin")
     B("tridiagonalize:1x1", "decomp.tridiagonalize", [HERM1], argclass="below minimum size")
     # --- tensor
     B("tensor_unfold:order2", "tensor.tensor_unfold", [SQ, 0], argclass="wrong tensor order")
